@@ -338,20 +338,20 @@ def floatModeOf : Mode → Float.Mode
 
 /-- the mirrored `FBig::<R,2>::to_fNN` (code as it is, including its double rounding) -/
 def fbigToFloatCodeOp (ty : String) (k : IntoConsts) (mode : Mode) (s e : Int) : String :=
-  match fbigToFloat k (floatModeOf mode) Float.coarseNone (Float.FRepr.new 2 s e) with
+  match fbigToFloatCode k (floatModeOf mode) Float.coarseNone (Float.FRepr.new 2 s e) with
   | .ok (bits, fl) => ok (fbits ty bits ++ " " ++ adjName fl)
   | .error kd => panic kd.name
 
 /-- the mirrored `FBig::<R,B>::to_fNN`, `B ≠ 2`: `convert_base::<B,2>` (builder-text's mirrored model) then
     `into_fNN_internal` with its debug assertion; `none` on the `ln`/`exp` branch (not mirrored) -/
 def fbigToFloatBaseCodeOp (ty : String) (k : IntoConsts) (site : String) (W B : Nat) (mode : Mode) (s e : Int) : Option String :=
-  match fbigToFloatBase k site W B (floatModeOf mode) (Float.FRepr.new B s e) with
+  match fbigToFloatBaseCode k site W B (floatModeOf mode) (Float.FRepr.new B s e) with
   | none => none
   | some (.ok (bits, fl)) => some (ok (fbits ty bits ++ " " ++ adjName fl))
   | some (.error kd) => some (panic kd.name)
 
 def fbigTryToFloatModel (ty : String) (k : IntoConsts) (s e : Int) : String :=
-  match fbigTryToFloat k Float.coarseNone (Float.FRepr.new 2 s e) with
+  match fbigTryToFloatCode k Float.coarseNone (Float.FRepr.new 2 s e) with
   | .ok (.ok b) => ok (fbits ty b)
   | .ok (.error er) => ok (errStr er)
   | .error kd => panic kd.name
@@ -395,9 +395,9 @@ def storedParts (relaxed : Bool) (num : Int) (den : Nat) : Int × Nat :=
     neither side is run there; beyond that the allocation is refused up front (`AllocTooMuch`, transcribed). -/
 def ratToFloatCodeOp (B : Nat) (mode : Mode) (relaxed : Bool) (num0 : Int) (den0 : Nat) (prec : Nat) : Option String :=
   let (num, den) := storedParts relaxed num0 den0
-  let total := prec + ilogB B den
-  let sh := total - ilogB B num
-  if prec ≠ 0 ∧ num ≠ 0 ∧ total < 2 ^ 64 ∧ sh > 2 ^ 22 then
+  -- (round 6, /repo 43925c0: the sum saturates; the model's own regenerated `to_float_shift` is asked)
+  let sh := Dashu.Gen.ConvToFloat.to_float_shift (ilogB B num) (ilogB B den) prec
+  if prec ≠ 0 ∧ num ≠ 0 ∧ sh > 2 ^ 22 then
     (if sh ≥ 2 ^ 64 - 64 then some (panic PanicKind.allocTooMuch.name) else none)
   else
     match ratToFloat B (floatModeOf mode) Float.coarseNone num den prec with
